@@ -120,6 +120,7 @@ var (
 func Alphabet(sigTypes []string, suffix string) []Sym {
 	b := &builder{}
 	none := ops.Window{}
+	late := false // second pass over the failure classes: the operation is also anchored after its window
 	// ---------------- create ----------------
 	mkCreate := func(name string, patches []any, origin any, tweak func(c ops.M, d *sidetree.Desc)) {
 		rec, upd := b.fresh("Ed25519"), b.fresh2("P-256")
@@ -179,90 +180,106 @@ func Alphabet(sigTypes []string, suffix string) []Sym {
 		if w.From == -1 { // relative windows: resolved against this symbol's own anchoring time
 			w = none
 		}
+		if late { // second pass: the same failure classes on an operation that is also anchored after its window
+			if build == nil {
+				return
+			}
+			w = ops.Window{From: int64(a.Time) - 20, Until: int64(a.Time) - 1}
+			name = "late+" + name
+		}
 		var req ops.M
 		if build != nil {
+			saved := none
+			none = w // the failure-class builders read their window through this variable
 			req = build(signer, next, &d)
+			none = saved
 		} else {
 			req = ops.ValidUpdate(suffix, signer, next, patches, Code, w)
 		}
 		d.InWindow = inWindow(w, a.Time)
 		b.add("update/"+name+"/"+kt, kt, operation.TypeUpdate, suffix, ops.Bytes(req), d)
 	}
-	for _, kt := range sigTypes {
-		kt := kt
-		mkUpdate("valid-add-key", kt, []any{pAddKey2()}, none, nil)
-		mkUpdate("bad-signature", kt, []any{pAddKey2()}, none, func(s, n *keys.Key, d *sidetree.Desc) ops.M {
-			r := ops.ValidUpdate(suffix, s, n, []any{pAddKey2()}, Code, none)
-			r["signedData"] = flipSig(r["signedData"].(string))
+	e := "Ed25519"
+	updates := func() {
+		for _, kt := range sigTypes {
+			kt := kt
+			mkUpdate("valid-add-key", kt, []any{pAddKey2()}, none, nil)
+			mkUpdate("bad-signature", kt, []any{pAddKey2()}, none, func(s, n *keys.Key, d *sidetree.Desc) ops.M {
+				r := ops.ValidUpdate(suffix, s, n, []any{pAddKey2()}, Code, none)
+				r["signedData"] = flipSig(r["signedData"].(string))
+				d.Refused = true
+				return r
+			})
+			mkUpdate("signed-by-other-key", kt, []any{pAddKey2()}, none, func(s, n *keys.Key, d *sidetree.Desc) ops.M {
+				dl := ops.Delta(ops.Commitment(n, Code), []any{pAddKey2()})
+				other := keys.New(kt, 900)
+				r := ops.Request("update", suffix, ops.Reveal(s, Code), other.SignCompact(s.Header(), ops.Canon(ops.UpdatePayload(s, ops.HashOf(dl, Code), none))), dl)
+				d.Refused = true
+				return r
+			})
+		}
+		mkUpdate("valid-remove-key", e, []any{pRemoveKey1()}, none, nil)
+		mkUpdate("valid-replace-key", e, []any{pAddKey1b()}, none, nil)
+		mkUpdate("valid-json-patch", e, []any{pJSONAdd2()}, none, nil)
+		mkUpdate("valid-replace-doc", e, []any{pReplace(), pAKA()}, none, nil)
+		mkUpdate("valid-nonce-key", e, []any{pAKA()}, none, func(s, n *keys.Key, d *sidetree.Desc) ops.M {
+			return ops.ValidUpdate(suffix, s.WithNonce("AAAAAAAAAAAAAAAAAAAAAA"), n, []any{pAKA()}, Code, none)
+		})
+		mkUpdate("bad-nonce-size", e, []any{pAKA()}, none, func(s, n *keys.Key, d *sidetree.Desc) ops.M {
+			d.Refused = true
+			return ops.ValidUpdate(suffix, s.WithNonce("AAAA"), n, []any{pAKA()}, Code, none)
+		})
+		mkUpdate("delta-unbound", e, []any{pAKA()}, none, func(s, n *keys.Key, d *sidetree.Desc) ops.M {
+			r := ops.ValidUpdate(suffix, s, n, []any{pAKA()}, Code, none)
+			r["delta"] = ops.Delta(ops.Commitment(n, Code), []any{pAddKey1b()})
 			d.Refused = true
 			return r
 		})
-		mkUpdate("signed-by-other-key", kt, []any{pAddKey2()}, none, func(s, n *keys.Key, d *sidetree.Desc) ops.M {
-			dl := ops.Delta(ops.Commitment(n, Code), []any{pAddKey2()})
-			other := keys.New(kt, 900)
-			r := ops.Request("update", suffix, ops.Reveal(s, Code), other.SignCompact(s.Header(), ops.Canon(ops.UpdatePayload(s, ops.HashOf(dl, Code), none))), dl)
+		mkUpdate("delta-invalid", e, []any{pInvalid()}, none, func(s, n *keys.Key, d *sidetree.Desc) ops.M {
+			d.Refused = true
+			return ops.ValidUpdate(suffix, s, n, []any{pInvalid()}, Code, none)
+		})
+		mkUpdate("delta-disabled-action", e, []any{pDisabled()}, none, func(s, n *keys.Key, d *sidetree.Desc) ops.M {
+			d.Refused = true
+			return ops.ValidUpdate(suffix, s, n, []any{pDisabled()}, Code, none)
+		})
+		mkUpdate("reveal-of-other-key", e, []any{pAKA()}, none, func(s, n *keys.Key, d *sidetree.Desc) ops.M {
+			r := ops.ValidUpdate(suffix, s, n, []any{pAKA()}, Code, none)
+			r["revealValue"] = ops.Reveal(keys.New(e, 901), Code)
 			d.Refused = true
 			return r
+		})
+		mkUpdate("extra-protected-header", e, []any{pAKA()}, none, func(s, n *keys.Key, d *sidetree.Desc) ops.M {
+			dl := ops.Delta(ops.Commitment(n, Code), []any{pAKA()})
+			js := s.SignCompact([]byte(`{"alg":"EdDSA","typ":"JWT"}`), ops.Canon(ops.UpdatePayload(s, ops.HashOf(dl, Code), none)))
+			d.Refused = true
+			return ops.Request("update", suffix, ops.Reveal(s, Code), js, dl)
+		})
+		mkUpdate("kid-header-allowed", e, []any{pAKA()}, none, func(s, n *keys.Key, d *sidetree.Desc) ops.M {
+			dl := ops.Delta(ops.Commitment(n, Code), []any{pAKA()})
+			js := s.SignCompact([]byte(`{"alg":"EdDSA","kid":"key-1"}`), ops.Canon(ops.UpdatePayload(s, ops.HashOf(dl, Code), none)))
+			return ops.Request("update", suffix, ops.Reveal(s, Code), js, dl)
+		})
+		mkUpdate("algorithm-not-allowed", e, []any{pAKA()}, none, func(s, n *keys.Key, d *sidetree.Desc) ops.M {
+			dl := ops.Delta(ops.Commitment(n, Code), []any{pAKA()})
+			js := s.SignCompact([]byte(`{"alg":"HS256"}`), ops.Canon(ops.UpdatePayload(s, ops.HashOf(dl, Code), none)))
+			d.Refused = true
+			return ops.Request("update", suffix, ops.Reveal(s, Code), js, dl)
+		})
+		mkUpdate("curve-not-allowed", "P-521", []any{pAKA()}, none, func(s, n *keys.Key, d *sidetree.Desc) ops.M {
+			d.Refused = true
+			return ops.ValidUpdate(suffix, s, n, []any{pAKA()}, Code, none)
+		})
+		mkUpdate("inapplicable", e, []any{pAKA(), pJSONBad()}, none, nil)
+		mkUpdate("unparsable", e, nil, none, func(s, n *keys.Key, d *sidetree.Desc) ops.M {
+			d.Refused = true
+			return ops.M{"type": "update", "didSuffix": suffix}
 		})
 	}
-	e := "Ed25519"
-	mkUpdate("valid-remove-key", e, []any{pRemoveKey1()}, none, nil)
-	mkUpdate("valid-replace-key", e, []any{pAddKey1b()}, none, nil)
-	mkUpdate("valid-json-patch", e, []any{pJSONAdd2()}, none, nil)
-	mkUpdate("valid-replace-doc", e, []any{pReplace(), pAKA()}, none, nil)
-	mkUpdate("valid-nonce-key", e, []any{pAKA()}, none, func(s, n *keys.Key, d *sidetree.Desc) ops.M {
-		return ops.ValidUpdate(suffix, s.WithNonce("AAAAAAAAAAAAAAAAAAAAAA"), n, []any{pAKA()}, Code, none)
-	})
-	mkUpdate("bad-nonce-size", e, []any{pAKA()}, none, func(s, n *keys.Key, d *sidetree.Desc) ops.M {
-		d.Refused = true
-		return ops.ValidUpdate(suffix, s.WithNonce("AAAA"), n, []any{pAKA()}, Code, none)
-	})
-	mkUpdate("delta-unbound", e, []any{pAKA()}, none, func(s, n *keys.Key, d *sidetree.Desc) ops.M {
-		r := ops.ValidUpdate(suffix, s, n, []any{pAKA()}, Code, none)
-		r["delta"] = ops.Delta(ops.Commitment(n, Code), []any{pAddKey1b()})
-		d.Refused = true
-		return r
-	})
-	mkUpdate("delta-invalid", e, []any{pInvalid()}, none, func(s, n *keys.Key, d *sidetree.Desc) ops.M {
-		d.Refused = true
-		return ops.ValidUpdate(suffix, s, n, []any{pInvalid()}, Code, none)
-	})
-	mkUpdate("delta-disabled-action", e, []any{pDisabled()}, none, func(s, n *keys.Key, d *sidetree.Desc) ops.M {
-		d.Refused = true
-		return ops.ValidUpdate(suffix, s, n, []any{pDisabled()}, Code, none)
-	})
-	mkUpdate("reveal-of-other-key", e, []any{pAKA()}, none, func(s, n *keys.Key, d *sidetree.Desc) ops.M {
-		r := ops.ValidUpdate(suffix, s, n, []any{pAKA()}, Code, none)
-		r["revealValue"] = ops.Reveal(keys.New(e, 901), Code)
-		d.Refused = true
-		return r
-	})
-	mkUpdate("extra-protected-header", e, []any{pAKA()}, none, func(s, n *keys.Key, d *sidetree.Desc) ops.M {
-		dl := ops.Delta(ops.Commitment(n, Code), []any{pAKA()})
-		js := s.SignCompact([]byte(`{"alg":"EdDSA","typ":"JWT"}`), ops.Canon(ops.UpdatePayload(s, ops.HashOf(dl, Code), none)))
-		d.Refused = true
-		return ops.Request("update", suffix, ops.Reveal(s, Code), js, dl)
-	})
-	mkUpdate("kid-header-allowed", e, []any{pAKA()}, none, func(s, n *keys.Key, d *sidetree.Desc) ops.M {
-		dl := ops.Delta(ops.Commitment(n, Code), []any{pAKA()})
-		js := s.SignCompact([]byte(`{"alg":"EdDSA","kid":"key-1"}`), ops.Canon(ops.UpdatePayload(s, ops.HashOf(dl, Code), none)))
-		return ops.Request("update", suffix, ops.Reveal(s, Code), js, dl)
-	})
-	mkUpdate("algorithm-not-allowed", e, []any{pAKA()}, none, func(s, n *keys.Key, d *sidetree.Desc) ops.M {
-		dl := ops.Delta(ops.Commitment(n, Code), []any{pAKA()})
-		js := s.SignCompact([]byte(`{"alg":"HS256"}`), ops.Canon(ops.UpdatePayload(s, ops.HashOf(dl, Code), none)))
-		d.Refused = true
-		return ops.Request("update", suffix, ops.Reveal(s, Code), js, dl)
-	})
-	mkUpdate("curve-not-allowed", "P-521", []any{pAKA()}, none, func(s, n *keys.Key, d *sidetree.Desc) ops.M {
-		d.Refused = true
-		return ops.ValidUpdate(suffix, s, n, []any{pAKA()}, Code, none)
-	})
-	mkUpdate("inapplicable", e, []any{pAKA(), pJSONBad()}, none, nil)
-	mkUpdate("unparsable", e, nil, none, func(s, n *keys.Key, d *sidetree.Desc) ops.M {
-		d.Refused = true
-		return ops.M{"type": "update", "didSuffix": suffix}
-	})
+	updates()
+	late = true
+	updates()
+	late = false
 	// windows relative to the symbol's own anchoring time
 	for _, wc := range []struct {
 		name       string
@@ -285,87 +302,114 @@ func Alphabet(sigTypes []string, suffix string) []Sym {
 	mkRecover := func(name, kt string, patches []any, origin any, w ops.Window, build func(signer, nr, nu *keys.Key, d *sidetree.Desc) ops.M) {
 		signer, nr, nu := b.fresh(kt), b.fresh2("Ed25519"), keys.New("P-256", 1002+3*b.n)
 		a := b.anchor()
+		if late {
+			if build == nil {
+				return
+			}
+			w = ops.Window{From: int64(a.Time) - 20, Until: int64(a.Time) - 1}
+			name = "late+" + name
+		}
 		d := sidetree.Desc{DeltaBound: true, DeltaValid: true, Patches: patches, UpdateCommitment: ops.Commitment(nu, Code),
 			RecoveryCommitment: ops.Commitment(nr, Code), AnchorOrigin: origin, Anchor: a, InWindow: inWindow(w, a.Time)}
 		var req ops.M
 		if build != nil {
+			saved := none
+			none = w
 			req = build(signer, nr, nu, &d)
+			none = saved
 		} else {
 			req = ops.ValidRecover(suffix, signer, nr, nu, patches, Code, origin, w)
 		}
 		b.add("recover/"+name+"/"+kt, kt, operation.TypeRecover, suffix, ops.Bytes(req), d)
 	}
-	for _, kt := range sigTypes {
-		mkRecover("valid", kt, []any{pAddKey2(), pAKA()}, "recovered-origin-"+kt, none, nil)
-		mkRecover("bad-signature", kt, []any{pAddKey2()}, "x", none, func(s, nr, nu *keys.Key, d *sidetree.Desc) ops.M {
-			r := ops.ValidRecover(suffix, s, nr, nu, []any{pAddKey2()}, Code, "x", none)
-			r["signedData"] = flipSig(r["signedData"].(string))
+	recovers := func() {
+		for _, kt := range sigTypes {
+			mkRecover("valid", kt, []any{pAddKey2(), pAKA()}, "recovered-origin-"+kt, none, nil)
+			mkRecover("bad-signature", kt, []any{pAddKey2()}, "x", none, func(s, nr, nu *keys.Key, d *sidetree.Desc) ops.M {
+				r := ops.ValidRecover(suffix, s, nr, nu, []any{pAddKey2()}, Code, "x", none)
+				r["signedData"] = flipSig(r["signedData"].(string))
+				d.Refused = true
+				return r
+			})
+		}
+		mkRecover("valid-no-origin", e, []any{pAddSvc()}, nil, none, nil)
+		mkRecover("valid-object-origin", e, []any{pAddKey1()}, ops.M{"anchor": "obj"}, none, nil)
+		mkRecover("delta-unbound", e, []any{pAddKey1()}, "ru", none, func(s, nr, nu *keys.Key, d *sidetree.Desc) ops.M {
+			r := ops.ValidRecover(suffix, s, nr, nu, []any{pAddKey1()}, Code, "ru", none)
+			r["delta"] = ops.Delta(ops.Commitment(nu, Code), []any{pAddKey2()})
+			d.DeltaBound = false
+			return r
+		})
+		mkRecover("delta-missing", e, []any{pAddKey1()}, "rm", none, func(s, nr, nu *keys.Key, d *sidetree.Desc) ops.M {
+			r := ops.ValidRecover(suffix, s, nr, nu, []any{pAddKey1()}, Code, "rm", none)
+			delete(r, "delta")
+			d.DeltaBound = false
+			return r
+		})
+		mkRecover("delta-invalid", e, []any{pInvalid()}, "ri", none, func(s, nr, nu *keys.Key, d *sidetree.Desc) ops.M {
+			d.DeltaValid = false
+			return ops.ValidRecover(suffix, s, nr, nu, []any{pInvalid()}, Code, "ri", none)
+		})
+		mkRecover("delta-disabled-action", e, []any{pDisabled()}, "rd", none, func(s, nr, nu *keys.Key, d *sidetree.Desc) ops.M {
+			d.DeltaValid = false
+			return ops.ValidRecover(suffix, s, nr, nu, []any{pDisabled()}, Code, "rd", none)
+		})
+		mkRecover("inapplicable", e, []any{pAddKey1(), pJSONBad()}, "rx", none, nil)
+		{
+			t := int64(b.anchor().Time)
+			mkRecover("window-late", e, []any{pAddKey1()}, "rw", ops.Window{From: t - 20, Until: t - 1}, nil)
+		}
+		{
+			t := int64(b.anchor().Time)
+			mkRecover("window-at-until", e, []any{pAddKey1()}, "rw2", ops.Window{From: t - 20, Until: t}, nil)
+		}
+		{
+			t := int64(b.anchor().Time)
+			mkRecover("window-default-expiry-out", e, []any{pAddKey1()}, "rw3", ops.Window{From: t - Delta - 1}, nil)
+		}
+		mkRecover("equal-next-commitments", e, []any{pAddKey1()}, "re", none, func(s, nr, nu *keys.Key, d *sidetree.Desc) ops.M {
+			d.UpdateCommitment = ops.Commitment(nr, Code)
+			return ops.ValidRecover(suffix, s, nr, nr, []any{pAddKey1()}, Code, "re", none)
+		})
+		mkRecover("reuses-signing-key", e, []any{pAddKey1()}, "rr", none, func(s, nr, nu *keys.Key, d *sidetree.Desc) ops.M {
+			d.Refused = true
+			return ops.ValidRecover(suffix, s, s, nu, []any{pAddKey1()}, Code, "rr", none)
+		})
+		mkRecover("reveal-of-other-key", e, []any{pAddKey1()}, "rv", none, func(s, nr, nu *keys.Key, d *sidetree.Desc) ops.M {
+			r := ops.ValidRecover(suffix, s, nr, nu, []any{pAddKey1()}, Code, "rv", none)
+			r["revealValue"] = ops.Reveal(keys.New(e, 902), Code)
 			d.Refused = true
 			return r
 		})
+		mkRecover("unparsable", e, nil, nil, none, func(s, nr, nu *keys.Key, d *sidetree.Desc) ops.M {
+			d.Refused = true
+			return ops.M{"type": "recover", "didSuffix": suffix, "revealValue": ops.Reveal(s, Code), "signedData": "a.b"}
+		})
+
 	}
-	mkRecover("valid-no-origin", e, []any{pAddSvc()}, nil, none, nil)
-	mkRecover("valid-object-origin", e, []any{pAddKey1()}, ops.M{"anchor": "obj"}, none, nil)
-	mkRecover("delta-unbound", e, []any{pAddKey1()}, "ru", none, func(s, nr, nu *keys.Key, d *sidetree.Desc) ops.M {
-		r := ops.ValidRecover(suffix, s, nr, nu, []any{pAddKey1()}, Code, "ru", none)
-		r["delta"] = ops.Delta(ops.Commitment(nu, Code), []any{pAddKey2()})
-		d.DeltaBound = false
-		return r
-	})
-	mkRecover("delta-missing", e, []any{pAddKey1()}, "rm", none, func(s, nr, nu *keys.Key, d *sidetree.Desc) ops.M {
-		r := ops.ValidRecover(suffix, s, nr, nu, []any{pAddKey1()}, Code, "rm", none)
-		delete(r, "delta")
-		d.DeltaBound = false
-		return r
-	})
-	mkRecover("delta-invalid", e, []any{pInvalid()}, "ri", none, func(s, nr, nu *keys.Key, d *sidetree.Desc) ops.M {
-		d.DeltaValid = false
-		return ops.ValidRecover(suffix, s, nr, nu, []any{pInvalid()}, Code, "ri", none)
-	})
-	mkRecover("delta-disabled-action", e, []any{pDisabled()}, "rd", none, func(s, nr, nu *keys.Key, d *sidetree.Desc) ops.M {
-		d.DeltaValid = false
-		return ops.ValidRecover(suffix, s, nr, nu, []any{pDisabled()}, Code, "rd", none)
-	})
-	mkRecover("inapplicable", e, []any{pAddKey1(), pJSONBad()}, "rx", none, nil)
-	{
-		t := int64(b.anchor().Time)
-		mkRecover("window-late", e, []any{pAddKey1()}, "rw", ops.Window{From: t - 20, Until: t - 1}, nil)
-	}
-	{
-		t := int64(b.anchor().Time)
-		mkRecover("window-at-until", e, []any{pAddKey1()}, "rw2", ops.Window{From: t - 20, Until: t}, nil)
-	}
-	{
-		t := int64(b.anchor().Time)
-		mkRecover("window-default-expiry-out", e, []any{pAddKey1()}, "rw3", ops.Window{From: t - Delta - 1}, nil)
-	}
-	mkRecover("equal-next-commitments", e, []any{pAddKey1()}, "re", none, func(s, nr, nu *keys.Key, d *sidetree.Desc) ops.M {
-		d.UpdateCommitment = ops.Commitment(nr, Code)
-		return ops.ValidRecover(suffix, s, nr, nr, []any{pAddKey1()}, Code, "re", none)
-	})
-	mkRecover("reuses-signing-key", e, []any{pAddKey1()}, "rr", none, func(s, nr, nu *keys.Key, d *sidetree.Desc) ops.M {
-		d.Refused = true
-		return ops.ValidRecover(suffix, s, s, nu, []any{pAddKey1()}, Code, "rr", none)
-	})
-	mkRecover("reveal-of-other-key", e, []any{pAddKey1()}, "rv", none, func(s, nr, nu *keys.Key, d *sidetree.Desc) ops.M {
-		r := ops.ValidRecover(suffix, s, nr, nu, []any{pAddKey1()}, Code, "rv", none)
-		r["revealValue"] = ops.Reveal(keys.New(e, 902), Code)
-		d.Refused = true
-		return r
-	})
-	mkRecover("unparsable", e, nil, nil, none, func(s, nr, nu *keys.Key, d *sidetree.Desc) ops.M {
-		d.Refused = true
-		return ops.M{"type": "recover", "didSuffix": suffix, "revealValue": ops.Reveal(s, Code), "signedData": "a.b"}
-	})
+	recovers()
+	late = true
+	recovers()
+	late = false
 
 	// ---------------- deactivate ----------------
 	mkDeact := func(name, kt string, w ops.Window, build func(signer *keys.Key, d *sidetree.Desc) ops.M) {
 		signer := b.fresh(kt)
 		a := b.anchor()
+		if late {
+			if build == nil {
+				return
+			}
+			w = ops.Window{From: int64(a.Time) - 20, Until: int64(a.Time) - 1}
+			name = "late+" + name
+		}
 		d := sidetree.Desc{Anchor: a}
 		var req ops.M
 		if build != nil {
+			saved := none
+			none = w
 			req = build(signer, &d)
+			none = saved
 		} else {
 			req = ops.ValidDeactivate(suffix, signer, Code, w)
 		}
@@ -374,26 +418,32 @@ func Alphabet(sigTypes []string, suffix string) []Sym {
 		}
 		b.add("deactivate/"+name+"/"+kt, kt, operation.TypeDeactivate, suffix, ops.Bytes(req), d)
 	}
-	for _, kt := range sigTypes {
-		mkDeact("valid", kt, none, nil)
-		mkDeact("bad-signature", kt, none, func(s *keys.Key, d *sidetree.Desc) ops.M {
+	deacts := func() {
+		for _, kt := range sigTypes {
+			mkDeact("valid", kt, none, nil)
+			mkDeact("bad-signature", kt, none, func(s *keys.Key, d *sidetree.Desc) ops.M {
+				r := ops.ValidDeactivate(suffix, s, Code, none)
+				r["signedData"] = flipSig(r["signedData"].(string))
+				d.Refused = true
+				return r
+			})
+		}
+		mkDeact("signed-suffix-mismatch", e, none, func(s *keys.Key, d *sidetree.Desc) ops.M {
+			rv := ops.Reveal(s, Code)
+			d.Refused = true
+			return ops.Request("deactivate", suffix, rv, ops.Sign(s, ops.DeactivatePayload(s, "EiOtherSuffix", rv, none)), nil)
+		})
+		mkDeact("reveal-of-other-key", e, none, func(s *keys.Key, d *sidetree.Desc) ops.M {
 			r := ops.ValidDeactivate(suffix, s, Code, none)
-			r["signedData"] = flipSig(r["signedData"].(string))
+			r["revealValue"] = ops.Reveal(keys.New(e, 903), Code)
 			d.Refused = true
 			return r
 		})
 	}
-	mkDeact("signed-suffix-mismatch", e, none, func(s *keys.Key, d *sidetree.Desc) ops.M {
-		rv := ops.Reveal(s, Code)
-		d.Refused = true
-		return ops.Request("deactivate", suffix, rv, ops.Sign(s, ops.DeactivatePayload(s, "EiOtherSuffix", rv, none)), nil)
-	})
-	mkDeact("reveal-of-other-key", e, none, func(s *keys.Key, d *sidetree.Desc) ops.M {
-		r := ops.ValidDeactivate(suffix, s, Code, none)
-		r["revealValue"] = ops.Reveal(keys.New(e, 903), Code)
-		d.Refused = true
-		return r
-	})
+	deacts()
+	late = true
+	deacts()
+	late = false
 	{
 		t := int64(b.anchor().Time)
 		mkDeact("window-late", e, ops.Window{From: t - 20, Until: t - 1}, nil)
